@@ -3,9 +3,10 @@ import itertools
 
 import gen_lang
 from props import c02
-from vlib import Case, lang_lines
+from vlib import Case, lang_lines, vmrun_lines
 
-RULE = ("op `eval`: statement sequences and loop bodies over the expression grammar, including empty match arms, branches ending in nested blocks, and break/continue taken "
+RULE = ("op `vmrun`: Bcv.checkProgram (heights consistent at every join, 0 at the end of the main code, operands in range) must accept the real bytecode of every program "
+        "except the recorded pending-operand jumps, which it must refuse; op `eval`: statement sequences and loop bodies over the expression grammar, including empty match arms, branches ending in nested blocks, and break/continue taken "
         "inside array literals, call arguments, operands, match arms and if branches; the real VM's operand-stack height after the run (hook VM::verif_sp) must be 0 and long "
         "loops (5000 iterations > STACK_SIZE) must not report a stack overflow; oracle = P2sh.Ref (values) + height 0; non-trivial = program ran and the oracle constrained it")
 ASSUMPTIONS = c02.ASSUMPTIONS + ["the height is read after the whole top-level program (heights of the statements add up, so a single leaking statement is visible); "
@@ -31,6 +32,10 @@ SAFE_STMTS = [
 
 
 def classify(c):
+    if "pending-jump" in c.tags and c.spec.startswith("eq BCV-REJECTED") and "height-mismatch" in c.spec:
+        # op vmrun: the bytecode verifier (Bcv, proved sound in P2sh.Props.Bcv) refuses the real bytecode statically:
+        # two paths reach the join after the loop / at the loop head with different operand-stack heights
+        return "jump-with-pending-operands"
     if "pending-jump" in c.tags and c.spec.startswith("m ok") and c.impl.startswith("ok "):
         # same final value and observations, only the height differs: the known compiler gap
         want = c.spec.split(" ")[1:]      # ok <final> obs=… sp=0
@@ -69,7 +74,13 @@ def cases(ctx):
         progs.append(("generated", s))
     srcs = [s for _, s in progs]
     lines = lang_lines(ctx, srcs)
-    return [Case(l, (t,), extra={"src": s}) for l, (t, s) in zip(lines, progs)]
+    out = [Case(l, (t,), extra={"src": s}) for l, (t, s) in zip(lines, progs)]
+    # translation validation: the verified bytecode verifier Bcv on the REAL bytecode of every program (driver op `vmrun`
+    # appends bcv=ok|<reason>; a refusal is the verdict `eq BCV-REJECTED <reason>`), and the VM model runs that bytecode
+    vprogs = [(t, s) for t, s in progs if not t.endswith("-long")]
+    vl = vmrun_lines(ctx, [s for _, s in vprogs])
+    out += [Case(l, (t, "vm"), extra={"src": s}) for l, (t, s) in zip(vl, vprogs)]
+    return out
 
 
 def judge(c):
